@@ -271,6 +271,20 @@ func find(body ast.Node, at string) (ast.Expr, *string) {
 		})
 		s := fmt.Sprintf("%d", n)
 		return nil, &s
+	case "cond": // cond:#k — condition of the k-th if-or-for statement (pre-order, same counting as isfor)
+		ast.Inspect(body, func(n ast.Node) bool {
+			switch s := n.(type) {
+			case *ast.IfStmt:
+				hit(s.Cond)
+			case *ast.ForStmt:
+				if s.Cond == nil {
+					hit(ast.NewIdent("true"))
+				} else {
+					hit(s.Cond)
+				}
+			}
+			return true
+		})
 	case "isfor": // isfor:#k — is the k-th if-or-for statement (pre-order) a for statement?
 		var res *string
 		ast.Inspect(body, func(nd ast.Node) bool {
